@@ -19,6 +19,14 @@ def call_program(draw, config=None, ncalls=(2, 5), nest=True, valid=False, **cfg
     lines = []
     probes = []
     nv = [0]
+    # (class, zero-argument instance method, modelled return classes) usable behind `&.`
+    safe_nav = []
+    for k_ in c["classes"]:
+        for m_ in k_["imethods"]:
+            if not m_["args"] and len([d for d in k_["imethods"] if d["name"] == m_["name"]]) == 1:
+                rc = model.return_classes(k_["class"], m_)
+                if rc:
+                    safe_nav.append((k_["class"], m_["name"], rc))
 
     def var(e):
         v = "v%d" % nv[0]
@@ -30,6 +38,13 @@ def call_program(draw, config=None, ncalls=(2, 5), nest=True, valid=False, **cfg
         """Returns (set of classes, expression). `want` = list of type names to aim at (or None)."""
         r = draw(st.integers(0, 99))
         pool = PRIM_CLASSES + classes
+        if want and "NilClass" in want and safe_nav and draw(st.integers(0, 1)) == 0:
+            # result of a safe-navigation call on an optional receiver: declared return classes plus NilClass
+            cands = [(c_, m_, rc) for (c_, m_, rc) in safe_nav if rc | {"NilClass"} <= {cfgmod.cls_of(t) for t in want}]
+            if cands:
+                c_, m_, rc = cands[draw(st.integers(0, len(cands) - 1))]
+                rv = var("true ? %s.new : nil" % c_)
+                return set(rc) | {"NilClass"}, var("%s&.%s()" % (rv, m_))
         if want and "Untyped" not in want and r < (75 if valid else 55):
             k = cfgmod.cls_of(want[draw(st.integers(0, len(want) - 1))])
             return {k}, cfgmod.lit(k)
